@@ -375,6 +375,10 @@ def _truth3(e, env):
             return True
         if v in ('none', 'empty'):
             return False
+        d = env.get('@defs', {}).get(e.id)
+        if d is not None:
+            # new_defaults = mapping is not None or vars
+            return _truth3(d, {k: w for k, w in env.items() if k != '@defs'})
         return None
     if isinstance(e, ast.UnaryOp) and isinstance(e.op, ast.Not):
         v = _truth3(e.operand, env)
@@ -418,6 +422,16 @@ def rule_munge(model):
         raise AnalysisError('munge: mapping / **vars parameters not found')
     calls = [c for c in own_nodes(fi.node) if isinstance(c, ast.Call)
              and 'DT_String:String.initvars' in model.callee_names(c, fi)]
+    # conditions named first:  new_defaults = mapping is not None or vars
+    cond_defs = {}
+    for x in own_nodes(fi.node):
+        if isinstance(x, ast.Assign) and len(x.targets) == 1 and isinstance(
+                x.targets[0], ast.Name) and x.targets[0].id not in ps and \
+                isinstance(x.value, (ast.BoolOp, ast.Compare, ast.UnaryOp,
+                                     ast.Name)):
+            nm = x.targets[0].id
+            cond_defs[nm] = None if nm in cond_defs else x.value
+    cond_defs = {k: v for k, v in cond_defs.items() if v is not None}
     if not calls:
         r.instance(fi.where, 'initvars(...)', 'MISSING')
         r.finding(fi.where, 'initvars(...)', 'munge no longer '
@@ -457,7 +471,7 @@ def rule_munge(model):
         for env, what in scenarios:
             verdict = True
             for t, pos in guards:
-                v = _truth3(t, env)
+                v = _truth3(t, dict(env, **{'@defs': cond_defs}))
                 if v is None:
                     verdict = None
                     break
@@ -500,7 +514,7 @@ def rule_munge(model):
             child = a
         verdict = True
         for t, pos in guards:
-            v = _truth3(t, {src: 'empty'})
+            v = _truth3(t, {src: 'empty', '@defs': cond_defs})
             if v is None:
                 verdict = None
                 break
